@@ -1119,3 +1119,115 @@ Lemma wf_prog_eqns {A} :
         <-> wf_msg m /\ specific m /\
             forall r, (r = None \/ exists rm, r = Some rm /\ wf_msg rm) -> wf_prog (k r)).
 Proof. repeat split; try exact (fun H => H); cbn [wf_prog] in *; tauto. Qed.
+
+(* ------------------------------------------------------------------------- *)
+(** * wire_step is: SerialSignBus write -> bridge step -> SerialSignBus read *)
+
+(* model/Serial.v spells the controller side of [wire_step] out inline.  Here it is with the
+   controller side done by [serial_process] itself, on a port whose input pipe already holds
+   what the bridge wrote back. *)
+Definition wire_step_via_serial (w : wire) (m : msg) : option (wire * wire_reply) :=
+  let sent := encode_nl (frame_of_msg m) in
+  match odk_process {| pt_in := pipe_reader sent; pt_out := pipe_writer |} (wr_bus w) with
+  | None => None
+  | Some (res, op, b', _) =>
+      match res with
+      | Err OPanic => Some (w, WPanic)
+      | _ =>
+          match serial_process m {| pt_in := pipe_reader (wr_inbox w ++ w_out (pt_out op));
+                                    pt_out := pipe_writer |} with
+          | None => None
+          | Some (r, p', _) =>
+              Some ({| wr_bus := b'; wr_inbox := r_content (pt_in p') |},
+                    match r with Ok reply => WRep reply | Err _ => WErr end)
+          end
+      end
+  end.
+
+(* What serial_process does on a port whose writer has an empty schedule. *)
+Lemma serial_process_pipe_out m p :
+  w_sched (pt_out p) = [] ->
+  serial_process m p
+  = let w' := {| w_out := w_out (pt_out p) ++ encode_nl (frame_of_msg m); w_sched := [] |} in
+    let ev1 := EvWrite (encode_nl (frame_of_msg m)) :: sleep_ev (delay_after_send m) in
+    if response_expected m then
+      match frame_read (pt_in p) with
+      | None => None
+      | Some (Err e, r') =>
+          Some (Err e, {| pt_in := r'; pt_out := w' |}, ev1 ++ [EvRead (consumed (pt_in p) r')])
+      | Some (Ok f, r') =>
+          Some (Ok (Some (msg_of_frame f)), {| pt_in := r'; pt_out := w' |},
+                ev1 ++ [EvRead (consumed (pt_in p) r')]
+                    ++ sleep_ev (delay_after_receive (msg_of_frame f)))
+      end
+    else Some (Ok None, {| pt_in := pt_in p; pt_out := w' |}, ev1).
+Proof.
+  intros Hs. unfold serial_process. destruct p as [rd [out sched]]. cbn [pt_out pt_in w_sched w_out] in *.
+  subst sched. rewrite frame_write_pipe.
+  assert (Hd : delivered {| w_out := out; w_sched := [] |}
+                 {| w_out := out ++ encode_nl (frame_of_msg m); w_sched := [] |}
+               = encode_nl (frame_of_msg m)).
+  { unfold delivered. cbn [w_out]. rewrite skipn_app, skipn_all, Nat.sub_diag. reflexivity. }
+  rewrite Hd. reflexivity.
+Qed.
+
+(* The bytes the serial bus writes are exactly the bytes wire_step feeds the bridge. *)
+Lemma serial_writes_sent m p res p' evs :
+  w_sched (pt_out p) = [] ->
+  serial_process m p = Some (res, p', evs) ->
+  w_out (pt_out p') = w_out (pt_out p) ++ encode_nl (frame_of_msg m)
+  /\ w_sched (pt_out p') = []
+  /\ exists evs', evs = EvWrite (encode_nl (frame_of_msg m)) :: evs'.
+Proof.
+  intros Hs H. rewrite (serial_process_pipe_out m p Hs) in H. cbv zeta in H.
+  destruct (response_expected m).
+  - destruct (frame_read (pt_in p)) as [[[f|e] r']|]; [| |discriminate];
+      injection H as _ <- <-; cbn [pt_out w_out w_sched app];
+      (split; [reflexivity|split; [reflexivity|eexists; reflexivity]]).
+  - injection H as _ <- <-. cbn [pt_out w_out w_sched].
+    split; [reflexivity|split; [reflexivity|eexists; reflexivity]].
+Qed.
+
+Lemma wire_step_serial w m : wire_step w m = wire_step_via_serial w m.
+Proof.
+  unfold wire_step, wire_step_via_serial. cbv zeta.
+  destruct (odk_process _ (wr_bus w)) as [[[[res op] b'] fw]|]; [|reflexivity].
+  assert (E :
+    (if response_expected m then
+       match frame_read (pipe_reader (wr_inbox w ++ w_out (pt_out op))) with
+       | None => None
+       | Some (Err _, r') => Some ({| wr_bus := b'; wr_inbox := r_content r' |}, WErr)
+       | Some (Ok f, r') =>
+           Some ({| wr_bus := b'; wr_inbox := r_content r' |}, WRep (Some (msg_of_frame f)))
+       end
+     else Some ({| wr_bus := b'; wr_inbox := wr_inbox w ++ w_out (pt_out op) |}, WRep None))
+    = match serial_process m {| pt_in := pipe_reader (wr_inbox w ++ w_out (pt_out op));
+                                pt_out := pipe_writer |} with
+      | None => None
+      | Some (r, p', _) =>
+          Some ({| wr_bus := b'; wr_inbox := r_content (pt_in p') |},
+                match r with Ok reply => WRep reply | Err _ => WErr end)
+      end).
+  { rewrite serial_process_pipe_out by reflexivity. cbv zeta. cbn [pt_in pt_out].
+    destruct (response_expected m); [|reflexivity].
+    destruct (frame_read _) as [[[f|e] r']|]; reflexivity. }
+  destruct res as [[]|[e|]]; try exact E. reflexivity.
+Qed.
+
+Theorem C17_wire_is_serial_plus_bridge :
+  (forall w m, wire_step w m = wire_step_via_serial w m)
+  /\ (forall m p res p' evs,
+        w_sched (pt_out p) = [] ->
+        serial_process m p = Some (res, p', evs) ->
+        w_out (pt_out p') = w_out (pt_out p) ++ encode_nl (frame_of_msg m)
+        /\ w_sched (pt_out p') = []
+        /\ exists evs', evs = EvWrite (encode_nl (frame_of_msg m)) :: evs')
+  /\ (forall m rd res p' evs,
+        serial_process m {| pt_in := rd; pt_out := pipe_writer |} = Some (res, p', evs) ->
+        w_out (pt_out p') = encode_nl (frame_of_msg m)).
+Proof.
+  split; [exact wire_step_serial|]. split; [exact serial_writes_sent|].
+  intros m rd res p' evs H.
+  exact (proj1 (serial_writes_sent m {| pt_in := rd; pt_out := pipe_writer |} res p' evs
+                  eq_refl H)).
+Qed.
